@@ -236,13 +236,23 @@ def handleCls (cls : String) (j : Json) : E Out := do
     let nsj ← req ((field? j "new_shape").bind getArr?)
     let center := (fBool? j "center").getD false
     if nsj.length != doms.length then throw "ValueError"
-    let mut sel : List (List Nat) := []
+    -- first loop of the constructor: dimension check of every entry (None counts as one axis)
     for (d, nj) in doms.zip nsj do
       match nj with
-      | Json.null => sel := sel ++ d.shape.map List.range
+      | Json.null => if d.shape.length != 1 then throw "ValueError"
       | _ =>
         let ns ← req (natList? nj)
         if ns.length != d.shape.length then throw "ValueError"
+    -- second loop: target / slices per sub-domain, in order
+    let mut sel : List (List Nat) := []
+    for (d, nj) in doms.zip nsj do
+      match nj with
+      | Json.null =>
+        -- with `center` the code computes `d.shape[j] - None`
+        if center then throw "TypeError"
+        sel := sel ++ d.shape.map List.range
+      | _ =>
+        let ns ← req (natList? nj)
         if (ns.zip d.shape).any (fun p => p.1 > p.2) then throw "ValueError"
         for (npix, n) in ns.zip d.shape do
           let start := if center then (n - npix) / 2 else 0
@@ -312,6 +322,7 @@ def handleCls (cls : String) (j : Json) : E Out := do
     let n ← req (fNat? j "n")
     let M : Coo CQ := imaginizer n
     pure { modes := [(1, M), (2, adj CQ.conj M)], doubled := true }
+  | "Reject" => throw ((fStr? j "kind").getD "bad-args")
   | "NullOperator" =>
     let r ← req (fNat? j "rows")
     let c ← req (fNat? j "cols")
